@@ -40,7 +40,7 @@ def describe(d):
     return ", ".join(f"{p or '.'}:{k}" for p, k in sorted(d.items()))
 
 
-def run_case(case, probe=None):
+def run_case(case, probe=None, on_window=None):
     """Execute one history.  Raises Violation.  Returns info dict."""
     cfg = case["cfg"]
     s = fsops.Session(cfg, case["init"])
@@ -57,6 +57,8 @@ def run_case(case, probe=None):
             if not ok:
                 raise runner.Inconclusive(f"sentinel not answered after burst {bi}: {burst}")
             log.append([repr(e) for e in evs])
+            if on_window is not None:
+                on_window(s, evs, burst)
             fsops.replay_events(replay, evs, s.norm)
             real = fsops.disk_tree(s.root, recursive=rec)
             got = fsops.scope(replay, rec)
